@@ -203,6 +203,7 @@ class Env:
         self.sock = S.AirTouchSocket(loop=self.loop, host="console.local", port=9004 if gen == 4 else 9005, registry=R.INSTANCE)
         self.notifications = []
 
+        self.mutated = []                # bytes handed to a congested transport that changed before they could leave it
         self.call_log = []               # (tick, call, "called" | "timed-out") of the scripted application calls
         self.callbacks = []              # (tick, which) of every application callback invoked by the client
         self.in_callback = None          # hook: coroutine function run INSIDE callback number n (shutdown requested from a subscriber)
@@ -287,6 +288,8 @@ class Env:
             self.events.append((e[1], kind) + tuple(x if not isinstance(x, (bytes, bytearray)) else len(x) for x in e[2:]))
             for hook in list(self.moment_hooks):
                 hook(len(self.events) - 1)
+        if kind == "mutated":
+            self.mutated.append((e[1], e[2], e[3].hex(), e[4].hex()))
         if kind == "write":
             self.console.on_write(e[2], e[3])
 
@@ -516,6 +519,9 @@ def _fault(env, what):
         return
     if what == "accept":
         env.net.mode = "accept"
+        return
+    if what == "failnext":         # the next connection (only that one) is half-open: its first write fails
+        env.net.fail_first_write = env.net.fail_first_once = True
         return
     c = env.net.conns[-1] if env.net.conns else None
     if c is None or c.conn_lost:
